@@ -146,6 +146,9 @@ def run(ctx):
         if any(d.startswith("parser::complete::") for d in F2.bodies):
             ctx.violation("R-C06-NOALLOC", "nodefault-complete", ("", 0, ""), "allocating parser present without the alloc feature")
         ctx.count("R-C06-NOALLOC-BUILD")
+    if ctx.tier == "thorough":
+        ctx.rule("R-C06-CLIPPY", "cross-reference: every potential-panic site flagged by clippy's restriction lints maps to an enumerated obligation")
+        ctx.cov["clippy_crossref"] = clippy_crossref(ctx, A, bodies, "R-C06", since, ("src/parser/",))
     ctx.cov.update({
         "config": "all features", "bodies_in_scope": len(bodies), "bodies_excluded_A7": skipped,
         "obligations_by_kind": by_kind, "static_sites": sites, "loops": loops, "invariants": invs,
